@@ -1,39 +1,157 @@
-import PeptVerif.Spec.ProForma
+import PeptVerif.Lemmas.ParserChain
 /-!
 # C01 — ProForma text ⇄ annotation are faithful inverses (property theorems)
+
+Objects: `Pept.parse true` (the parser of the current `/repo`, Model/Parser.lean), `Pept.serialize` /
+`Pept.serializeMulti` (Model/Serialize.lean), the decidable well-formedness predicate `Pept.canon`
+(Spec/ProForma.lean: the image of the documented grammar). All statements are for every annotation, every
+sequence length, every list of modifications, both `include_plus` settings. "Equal" is structural equality of the
+model objects, which implies the library's multiset `==`.
+
+Outside these theorems (rest on correspondence only): float values whose text is not Python's `repr`
+(more than 15 significant digits, |decimal exponent| beyond 290) are not `canon`; non-ASCII text.
+
+Known finding (not provable, stated below as `_partial` + counter-example): chains joined by a crosslink.
 -/
 namespace Pept
 
-theorem scan_append (o c : Char) (w t : List Char) (d d' : Nat)
-    (h : depthAfter o c d w = some d') :
-    scan o c d (w ++ t) = (scan o c d' t).map (fun r => (w ++ r.1, r.2)) := by
-  induction w generalizing d with
-  | nil =>
-    simp [depthAfter] at h; subst h
-    simp only [List.nil_append]
-    cases hs : scan o c d t <;> simp
-  | cons x xs ih =>
-    simp only [depthAfter] at h
-    simp only [List.cons_append, scan]
-    split
-    · rename_i hx; rw [if_pos hx] at h; rw [ih _ h]; cases scan o c d' t <;> simp
-    · rename_i hx; rw [if_neg hx] at h
-      split
-      · rename_i hxc; rw [if_pos hxc] at h
-        split
-        · rename_i hd; simp [hd] at h
-        · rename_i hd; rw [if_neg hd] at h; rw [ih _ h]; cases scan o c d' t <;> simp
-      · rename_i hxc; rw [if_neg hxc] at h; rw [ih _ h]; cases scan o c d' t <;> simp
+/-! ## 1. one modification -/
 
-/-- the bracket-depth scan of `_parse_modification` returns exactly a balanced body and what follows the
-closing bracket — for every body, every continuation, every bracket pair -/
+/-- The bracket-depth scan of `_parse_modification` returns exactly a balanced body and what follows the
+closing bracket — for every body, every continuation, every bracket pair. -/
 theorem scan_roundtrip (o c : Char) (hoc : o ≠ c) (w rest : List Char) (hb : balanced o c w = true) :
-    scan o c 1 (w ++ c :: rest) = some (w, rest) := by
-  have hb' : depthAfter o c 1 w = some 1 := by simpa [balanced] using hb
-  rw [scan_append o c w (c :: rest) 1 1 hb']
-  simp [scan]
-  intro h; exact absurd h.symm hoc
+    scan o c 1 (w ++ c :: rest) = some (w, rest) :=
+  scan_balanced o c hoc w rest hb
 
 example : balanced '[' ']' "Formula:[13C2]H4".toList = true := by decide
+
+/-- `_parse_modification` is a left inverse of `Mod.serialize`: for every canonical modification (any value kind,
+any multiplier ≥ 1), both spellings of positive numbers, every continuation that does not start with `^` or a digit.
+Covers `+1.0 ↦ 1.0`, `^n`, nested brackets as in `Formula:[13C2]H4`. -/
+theorem parseMod_serialize (o c : Char) (hoc : o ≠ c) (hpo : '+' ≠ o) (hpc : '+' ≠ c) (plus : Bool) (m : Mod)
+    (hm : canonMod o c m = true) (rest : List Char) (hrest : ModStop rest) :
+    parseModBody o c ((Mod.serialize o c plus m).tail ++ rest) = .ok (m, rest) ∧
+      (Mod.serialize o c plus m).head? = some o :=
+  ⟨parseModBody_serialize o c hoc hpo hpc plus m hm rest hrest, by rw [Mod.serialize_eq_cons]; rfl⟩
+
+example : canonMod '[' ']' ⟨.flt "1.5".toList, 3⟩ = true := by decide +kernel
+example : canonMod '[' ']' ⟨.str "Formula:[13C2]H4".toList, 1⟩ = true := by decide +kernel
+example : Mod.serialize '[' ']' true ⟨.flt "1.0".toList, 2⟩ = "[+1.0]^2".toList := by decide +kernel
+
+/-- every Python `int` is a canonical value: `convert_type(str(i)) == i`, for all `i` -/
+theorem int_value_roundtrip (i : Int) : convertType (ModVal.int i).text = .int i :=
+  convertType_intText i
+
+/-- a run of modifications (`_parse_modifications`) -/
+theorem parseMods_roundtrip (o c : Char) (hoc : o ≠ c) (hpo : '+' ≠ o) (hpc : '+' ≠ c) (ho1 : o ≠ '^')
+    (ho2 : o.isDigit = false) (plus : Bool) (l : List Mod) (hl : l.all (canonMod o c) = true)
+    (rest : List Char) (hrest : ModStop rest) (hro : rest.head? ≠ some o) :
+    parseMods o c (serializeMods o c plus l ++ rest) = .ok (l, rest) :=
+  parseMods_serialize o c hoc hpo hpc ho1 ho2 plus l hl rest hrest hro
+
+/-! ## 2. the three sections -/
+
+/-- `_parse_sequence_start` reads back what `_serialize_annotation_start` wrote: labile, static, isotope,
+unknown-position and N-terminal modifications, followed by anything that starts with a residue or `(`. -/
+theorem parseStart_serializeStart (plus : Bool) (a : Annotation) (hc : canon a = true) (rest : List Char)
+    (hrest : StartStop rest) :
+    parseStart true { seq := [] } (serializeStart plus a ++ rest) =
+      .ok ({ seq := [], labile := a.labile, static := a.static, isotope := a.isotope, unknown := a.unknown,
+             nterm := a.nterm }, rest) := by
+  simp only [canon, Bool.and_eq_true] at hc
+  obtain ⟨⟨⟨⟨⟨⟨⟨⟨⟨⟨⟨_, _⟩, hlab⟩, hst⟩, hiso⟩, hunk⟩, hnt⟩, _⟩, _⟩, _⟩, _⟩, _⟩ := hc
+  rw [serializeStart_eq]
+  simp only [List.append_assoc]
+  exact parseStart_sections plus a.labile a.static a.isotope a.unknown a.nterm hlab hst hiso hunk hnt rest hrest
+
+/-- `_parse_sequence_middle` reads back what `_serialize_annotation_middle` wrote — induction over the residues with
+the interval-open/close bookkeeping, including an interval opening at residue 0 and one closing after the last
+residue, modifications on residues and on intervals. -/
+theorem parseMiddle_serializeMiddle (plus : Bool) (a acc : Annotation) (hc : canon a = true)
+    (h1 : acc.seq = []) (h2 : acc.internal = none) (h3 : acc.intervals = none)
+    (tail : List Char) (htail : MidStop tail) :
+    parseMiddle acc none (serializeMiddle plus a ++ tail) =
+      parseMiddle { acc with seq := a.seq, internal := a.internal, intervals := a.intervals } none tail := by
+  simp only [canon, Bool.and_eq_true] at hc
+  obtain ⟨⟨⟨⟨⟨⟨⟨⟨⟨⟨⟨_, hAA⟩, _⟩, _⟩, _⟩, _⟩, _⟩, hD⟩, hL⟩, _⟩, _⟩, _⟩ := hc
+  exact parseMiddle_serializeMiddle' plus a acc hAA hD hL h1 h2 h3 tail htail
+
+/-- `_parse_sequence_end` reads back charge and adducts, up to the end of the input or the `+` of the next chain -/
+theorem parseEnd_serializeEnd (plus : Bool) (a : Annotation) (ha0 : a.adducts = none) (conn : Option Bool) (ch : Int)
+    (ad : Option (List Mod)) (had : canonAdducts (some ch) ad = true) (rest : List Char) (hrest : ChainStop rest) :
+    parseEnd a conn ('/' :: (intText ch ++ (optMods '[' ']' plus ad ++ rest))) =
+      .ok ({ a with charge := some ch, adducts := ad }, (if rest = [] then conn else some false), rest.tail) := by
+  rw [parseEnd_charge plus a ha0 conn ch ad had rest hrest, parseEnd_stop _ _ _ hrest]
+
+/-! ## 3. whole annotations -/
+
+/-- **Round trip, single chain.** For every canonical annotation and both `include_plus` settings the serialized text
+parses back to the same annotation. -/
+theorem parse_serialize (plus : Bool) (a : Annotation) (hc : canon a = true) :
+    parse true (serialize plus a) = .ok (.single a) := by
+  have hne : a.seq ≠ [] := by
+    simp only [canon, Bool.and_eq_true, Bool.not_eq_eq_eq_not, Bool.not_true] at hc
+    intro h; rw [h] at hc; simp at hc
+  have hchain := parseChains_chain plus a hc none [] (Or.inl rfl)
+  simp only [List.append_nil, ↓reduceIte, List.tail_nil] at hchain
+  have hnil : parseChains true none [] = .ok [] := by rw [parseChains.eq_def]
+  rw [hnil] at hchain
+  unfold parse
+  split
+  · -- the `_is_unmodified` shortcut: the chain parser returns the same object
+    rename_i hun
+    have := parseChains_allAA none (serialize plus a) hun (serialize_ne_nil plus a hne)
+    rw [hchain] at this
+    simp only [Except.ok.injEq, List.cons.injEq, Prod.mk.injEq, and_true] at this
+    rw [this.1]
+  · rw [hchain]
+
+example : canon { seq := "PEPTIDE".toList, unknown := some [⟨.int 1, 1⟩], nterm := some [⟨.int 2, 1⟩],
+    intervals := some [⟨0, 3, false, some [⟨.int 3, 2⟩]⟩], charge := some 2,
+    adducts := some [⟨.str "+2Na+,+H+".toList, 1⟩] } = true := by decide +kernel
+
+example : serialize false { seq := "PEPTIDE".toList, unknown := some [⟨.int 1, 1⟩], nterm := some [⟨.int 2, 1⟩],
+    intervals := some [⟨0, 3, false, some [⟨.int 3, 2⟩]⟩], charge := some 2,
+    adducts := some [⟨.str "+2Na+,+H+".toList, 1⟩] } = "[1]?[2]-(PEP)[3]^2TIDE/2[+2Na+,+H+]".toList := by decide +kernel
+
+/-- **Serializing is a fixpoint after one round trip** (corollary): `serialize(parse(serialize(a))) == serialize(a)`. -/
+theorem serialize_fixpoint (plus : Bool) (a : Annotation) (hc : canon a = true) :
+    (parse true (serialize plus a)).bind (serializeParsed plus) = .ok (serialize plus a) := by
+  rw [parse_serialize plus a hc]; rfl
+
+/-- **Round trip, several chains joined by `+`** (every connection `False`): the serialized text parses back to the
+same chains with the same connection flags — for any number ≥ 2 of canonical chains. -/
+theorem parse_serialize_multi_partial (plus : Bool) (as : List Annotation) (h2 : as.length ≥ 2)
+    (hc : as.all canon = true) :
+    serializeMulti plus as (List.replicate (as.length - 1) (some false)) = .ok (chainsText plus as) ∧
+    parse true (chainsText plus as) = .ok (.multi as (List.replicate (as.length - 1) (some false))) := by
+  refine ⟨serializeMulti_plus plus as, ?_⟩
+  match as, h2 with
+  | a :: b :: t, _ =>
+    unfold parse
+    rw [chainsText_not_unmodified]
+    simp only [Bool.false_eq_true, ↓reduceIte]
+    rw [parseChains_chainsText plus (a :: b :: t) (by simp) hc none]
+    have h1 := chainsResult_fst none (a :: b :: t)
+    have h2 := chainsResult_snd none (a :: b :: t)
+    cases hr : chainsResult none (a :: b :: t) with
+    | nil => simp [chainsResult] at hr
+    | cons p q =>
+      cases q with
+      | nil => cases t <;> simp [chainsResult] at hr
+      | cons p2 q2 =>
+        rw [hr] at h1 h2
+        simp only
+        rw [h1, h2]
+
+/-- The full statement (any connection flags) is FALSE for the current code: `MultiProFormaAnnotation.serialize` writes a
+crosslink as two backslashes, which the parser rejects, while it reads `//` (KF-C01-crosslink-backslash; pinned by
+tests/test_proforma.py::test_multi_annotation_crosslink and a doctest). Witness `PEPTIDE//PEPTIDE`. -/
+theorem parse_serialize_crosslink_false :
+    parse true "PEPTIDE//PEPTIDE".toList =
+      .ok (.multi [{ seq := "PEPTIDE".toList }, { seq := "PEPTIDE".toList }] [some true]) ∧
+    serializeMulti false [{ seq := "PEPTIDE".toList }, { seq := "PEPTIDE".toList }] [some true] =
+      .ok "PEPTIDE\\\\PEPTIDE".toList ∧
+    parse true "PEPTIDE\\\\PEPTIDE".toList = .error .format := by decide +kernel
 
 end Pept
